@@ -22,6 +22,7 @@ func ruleC20(prog *Program, rep *Report) {
 	info := pk.TypesInfo
 	ruleNumFamily(prog, rep, 1, "asm")
 	ruleGetTwins(prog, rep)
+	ruleCallOrder(prog, rep, 1, "asm")
 	ruleDirectConversion(prog, rep, "asm", 15) // sum, dif, product, mod, eq and the ordering functions read integers of every width through these arms
 	// E-recover
 	rep.Rules = append(rep.Rules, "E-recover: asm.Plan.Execute begins with a deferred function literal that calls recover() and assigns its named error result; no go statement, os.Exit or log.Fatal* occurs in package asm")
